@@ -41,7 +41,8 @@ def corpus_cases():
     stale = [c for c in hist.stale_handle_cases("c02", ["phys"])
              if ("_remove_drop" in c.name or "_remove_flush_drop" in c.name or "_remove_parent_" in c.name) and "_openfile_" not in c.name]
     for b in hist.matrix_cases("c02", ["phys"], c01_domain=True) + hist.reader_seek_cases("c02", ["phys"]) + stale + \
-            hist.neighbour_name_cases("c02", ["phys"]) + hist.size_cases("c02", ["phys"]):
+            hist.neighbour_name_cases("c02", ["phys"]) + hist.size_cases("c02", ["phys"]) + \
+            hist.overwrite_session_cases("c02", ["phys"]):
         b.name = b.name + "_phys"
         b.lines[0] = "case " + b.name
         cases += [twin_of(b), b]
